@@ -85,11 +85,21 @@ for _k, _perm in enumerate(itertools.permutations(range(4))):
         {0: {"x": "a", "y": "b", "z": "c"}, 1: {"x": "d"}, 2: {"x": "e"}, 3: {"x": "g"}}, list(_perm))
 
 
+COLUMN4 = [(0, -1, 0), (0, 0, 0), (0, 1, 0), (0, 2, 0)]
+for _kb in range(24):
+    for _kc in ((_kb * 7 + 5) % 24, (_kb * 11 + 13) % 24):
+        # a column along y, every box chopped along y; the x count is given on the last box only and the z count on the first
+        # only: x travels 3 -> 2 -> 1 -> 0 while z travels 0 -> 1 -> 2 -> 3, through two middle boxes in any two numberings
+        WELL[f"column4-cross-flow-{_kb}-{_kc}"] = (
+            COLUMN4, [0, _kb, _kc, 0], {0: {"y": "a", "z": "c"}, 1: {"y": "b"}, 2: {"y": "d"}, 3: {"y": "e", "x": "f"}},
+            [0, 1, 2, 3] if _kb % 2 == 0 else [2, 1, 3, 0])
+
+
 def outcome(ctx, mesh):
     return [[ax.count if ax.is_defined else None for ax in b.axes] for b in mesh.blocks]
 
 
-@proof("C02", "propagation/well-posed", cases=[(n, o) for n in WELL for o in ORDERS if not (n.startswith("row4-chain") and o == "reversed-order")], level="S", samples=2, timeout=60,
+@proof("C02", "propagation/well-posed", cases=[(n, o) for n in WELL for o in ORDERS if not ((n.startswith("row4-chain") or n.startswith("column4")) and o == "reversed-order")], level="S", samples=2, timeout=60,
        functions=[BL + "propagate_gradings", BL + "grade_blocks", AX + "copy_grading", AX + "is_aligned", "classy_blocks.items.block:Block.copy_grading",
                   "classy_blocks.items.wires.manager:WirePropagateManager.grade", "classy_blocks.grading.chop:Chop.copy_preserving"],
        note="shape bound: listed assemblies (<= 4 boxes, rotated numberings, insertion orders); chop counts symbolic (one symbol per "
